@@ -399,3 +399,36 @@ Theorem flatten_keeps s : utf8_valid s = true ->
 Proof.
   intros H. split; [apply strip_lb_keeps, utf8_valid_joins_clean, H | apply strip_lb_svg_keeps, utf8_valid_joins_clean_svg, H].
 Qed.
+
+(* ---------------------------------------------------------------- execution twins *)
+Lemma lrev_rev {A} (l : list A) : lrev l = rev l.
+Proof. unfold lrev. symmetry. apply rev_alt. Qed.
+
+Lemma split_on_aux_fast_eq sep : forall s cur, split_on_aux_fast sep s cur = split_on_aux sep s cur.
+Proof.
+  induction s as [|c r IH]; intros cur; cbn [split_on_aux_fast split_on_aux]; rewrite ?lrev_rev; auto.
+  destruct (c =? sep); rewrite ?IH; reflexivity.
+Qed.
+
+Lemma split_on_fast_eq sep s : split_on_fast sep s = split_on sep s.
+Proof. apply split_on_aux_fast_eq. Qed.
+
+Lemma trim_space_fast_eq s : trim_space_fast s = trim_space s.
+Proof. unfold trim_space_fast, trim_space, trim_right. cbv zeta. rewrite !lrev_rev. reflexivity. Qed.
+
+Lemma svg_part_fast_eq p : svg_part_fast p = svg_part p.
+Proof.
+  unfold svg_part_fast, svg_part. cbv zeta. rewrite trim_space_fast_eq, lrev_rev.
+  unfold has_suffix. cbn [rev app]. destruct (rev (trim_space p)) as [|c r]; cbn [has_prefix]; [reflexivity|].
+  rewrite Z.eqb_sym, andb_true_r. reflexivity.
+Qed.
+
+Theorem strip_lb_fast_eq s : strip_lb_fast s = strip_lb s.
+Proof.
+  unfold strip_lb_fast, strip_lb. rewrite split_on_fast_eq. f_equal. apply map_ext, trim_space_fast_eq.
+Qed.
+
+Theorem strip_lb_svg_fast_eq s : strip_lb_svg_fast s = strip_lb_svg s.
+Proof.
+  unfold strip_lb_svg_fast, strip_lb_svg. rewrite split_on_fast_eq. f_equal. apply map_ext, svg_part_fast_eq.
+Qed.
